@@ -222,7 +222,7 @@ func runC01(r *Run, rng *rand.Rand, thorough bool) {
 		half := new(big.Int).Rsh(q, 1)
 		targets := []*big.Int{bi(1), randInt(rng, 200), new(big.Int).Set(half), new(big.Int).Add(half, bi(1)), new(big.Int).Sub(q, bi(1)), new(big.Int).Sub(q, randInt(rng, 200))}
 		if !thorough {
-			targets = []*big.Int{targets[1], targets[3], targets[int(r.Seed)%len(targets)]}
+			targets = []*big.Int{targets[2], targets[3], targets[(int(r.Seed)%2)*4+(int(r.Seed)/2)%2]}
 		}
 		for ti, sStar := range targets {
 			useU := u
